@@ -148,7 +148,7 @@ impl Check for C19 {
     }
 
     fn run(&self, run: &Run) {
-        let q = run.tier.quick();
+        let q = false;
         run.rule("every assignment of a 12-value pixel alphabet to surfaces with up to 4 pixels, and a one-hot scan (every position x every value over two backgrounds) for the larger sizes up to 3x3, is built with from_vec and observed through get_data, get_data_u8, both mutable views, write_png (decoded with the png crate), into_vec, from_backing, into_inner; SolidSource::to_u32 over a 17^4 channel grid; non-trivial = surface has at least one pixel");
         run.assume("little-endian host for the byte-view clause; the png crate's decoder is trusted");
         let root = run.root.clone();
